@@ -302,6 +302,10 @@ where
         // MAV is provided by the context from whatever interface the command was received on
         if context.mav {
             stb |= StatusBit::Mav.mask();
+            // MAV is summarized in MSS like any other status bit enabled by *SRE
+            if device.sre() & StatusBit::Mav.mask() != 0 {
+                stb |= StatusBit::RqsMss.mask();
+            }
         }
         response.data(stb).finish()
     }
